@@ -77,9 +77,21 @@ func (sh *SearchHistory) Load() error {
 		return nil
 	}
 
-	err = json.Unmarshal(data, sh)
+	// Decode into a fresh value: decoding into sh itself would keep fields of entries
+	// already in memory that the file omits, and would leave sh half-overwritten when
+	// the file turns out to be damaged.
+	var loaded SearchHistory
+	err = json.Unmarshal(data, &loaded)
 	if err != nil {
 		return fmt.Errorf("failed to parse history file: %w", err)
+	}
+
+	sh.Entries = loaded.Entries
+	if sh.Entries == nil {
+		sh.Entries = make([]SearchEntry, 0)
+	}
+	if loaded.MaxSize > 0 { // a missing or nonsensical maximum in the file is ignored
+		sh.MaxSize = loaded.MaxSize
 	}
 
 	return nil
@@ -126,6 +138,9 @@ func (sh *SearchHistory) AddEntry(query string, resultsCount int, context string
 	sh.Entries = append(sh.Entries, entry)
 
 	// Trim to max size if needed
+	if sh.MaxSize <= 0 {
+		sh.MaxSize = 100 // same default as NewSearchHistory
+	}
 	if len(sh.Entries) > sh.MaxSize {
 		sh.Entries = sh.Entries[len(sh.Entries)-sh.MaxSize:]
 	}
